@@ -168,7 +168,26 @@ def _validate(ck, sw, name, beh, label):
     if summ["drift"]:
         ck.cov["impl_drift"].append({"run": label, "rounds_differing_from_model": summ["drift"],
                                      "first": summ.get("first_drift")})
+    rechecked = {}
     for sid, i, key in bads:
+        if "no-result" in key:
+            # bounded-time observation: believe it only if it recurs with larger budgets
+            if key not in rechecked:
+                one = os.path.join(ck.work, "re_%s_%d.jsonl" % (name, sid))
+                with open(one, "w") as f:
+                    f.write(vlib.nth_line(beh, sid) + "\n")
+                ok = True
+                for slow in (2, 4, 8):
+                    t2 = one + ".trace%d" % slow
+                    vlib.run_replay(["wshs", "-in", one, "-out", t2], timeout=900, env={"VERIF_SLOW": str(slow)})
+                    b2, _ = vlib.validate_trace(sw, "HandshakeMonTrace", "HandshakeMonTrace.cfg", t2, parallel=1)
+                    if not any(k == key for _, _, k in b2):
+                        ok = False
+                        break
+                rechecked[key] = ok
+            if not rechecked[key]:
+                ck.cov.setdefault("transient_timing_observations", []).append({"rule": key, "scenario": sid, "run": label})
+                continue
         ck.report_bad(key, "handshake trace rejected at event %d of scenario %d (%s)" % (i, sid, label),
                       lambda sid=sid, i=i, key=key: {
                           "property": ck.pid, "component": "wshs", "rule": key, "step": i,
